@@ -3,6 +3,7 @@ module github.com/notaryproject/notation-go/xverif
 go 1.23.0
 
 require (
+	github.com/fxamacker/cbor/v2 v2.8.0
 	github.com/go-ldap/ldap/v3 v3.4.10
 	github.com/notaryproject/notation-core-go v1.3.0
 	github.com/notaryproject/notation-go v0.0.0
@@ -10,16 +11,15 @@ require (
 	github.com/notaryproject/tspclient-go v1.0.0
 	github.com/opencontainers/go-digest v1.0.0
 	github.com/opencontainers/image-spec v1.1.1
+	github.com/veraison/go-cose v1.3.0
 	oras.land/oras-go/v2 v2.5.0
 )
 
 require (
 	github.com/Azure/go-ntlmssp v0.0.0-20221128193559-754e69321358 // indirect
-	github.com/fxamacker/cbor/v2 v2.8.0 // indirect
 	github.com/go-asn1-ber/asn1-ber v1.5.7 // indirect
 	github.com/golang-jwt/jwt/v4 v4.5.2 // indirect
 	github.com/google/uuid v1.6.0 // indirect
-	github.com/veraison/go-cose v1.3.0 // indirect
 	github.com/x448/float16 v0.8.4 // indirect
 	golang.org/x/crypto v0.37.0 // indirect
 	golang.org/x/mod v0.24.0 // indirect
